@@ -1,14 +1,14 @@
 package concchk
 
 import (
+	"bufio"
 	"bytes"
-	"context"
 	"fmt"
 	"os"
 	"os/exec"
 	"path/filepath"
-	"sort"
 	"strings"
+	"sync"
 	"sync/atomic"
 	"syscall"
 	"testing"
@@ -16,24 +16,27 @@ import (
 )
 
 // The concurrency checks of this package execute every multi-goroutine case in
-// a child process (this same test binary, re-executed with an environment
-// variable naming the case file). That way a Go race-detector report becomes
-// data the parent can parse and turn into a proper, signature-carrying
-// s.Fail, instead of a "WARNING: DATA RACE" that poisons the parent binary's
-// exit status; and the detector's per-process de-duplication of reports can
-// not hide a race in a later (e.g. shrunk) case.
+// a child process: this same (race-instrumented) test binary, re-executed as a
+// case server (TestChildServe). That way a Go race-detector report becomes data
+// the parent can parse and turn into a proper, signature-carrying s.Fail,
+// instead of a "WARNING: DATA RACE" that poisons the parent binary's exit
+// status. The detector de-duplicates reports per process, so a child is
+// discarded as soon as it has printed a report (or hung, or died): the next
+// case — e.g. a shrink candidate — always meets a detector that has reported
+// nothing yet. Starting the instrumented binary costs seconds on a loaded
+// machine, which is why a clean child is kept for the following cases.
 
 const akitaPrefix = "github.com/sarchlab/akita/v5/"
 
-// raceReport is one parsed "WARNING: DATA RACE" block.
 type raceFrame struct {
 	Fn   string // normalised function name
 	Repo bool   // the function belongs to a package of /repo
 }
 
+// raceReport is one parsed "WARNING: DATA RACE" block.
 type raceReport struct {
 	Stacks [2][]raceFrame // innermost first, of the two conflicting accesses
-	Ops    [2]string   // "read" / "write" (+"atomic")
+	Ops    [2]string      // "read" / "write" (+"atomic")
 	Raw    string
 }
 
@@ -57,31 +60,93 @@ func newCaseDir(t testing.TB, root, prefix string) string {
 	return d
 }
 
-type childRun struct {
-	Stderr   string
-	Races    []raceReport
-	Panics   []string // "http: panic serving" blocks (net/http recovered a handler panic)
-	ExitCode int
-	TimedOut bool
+// ---- the case server (child side) -------------------------------------------------------
+
+// TestChildServe is the child-process entry point. It is not a check (its name
+// matches neither ^TestC35 nor ^TestC40) and does nothing unless the parent
+// asked for it. Requests arrive on stdin as "<kind> <case file> <out file>",
+// one per line; the answer "DONE" / "EXIT" goes to fd 3.
+func TestChildServe(t *testing.T) {
+	if os.Getenv("VERIF_CONC_SERVE") == "" {
+		t.Skip("child entry point")
+	}
+	resp := os.NewFile(3, "resp")
+	sc := bufio.NewScanner(os.Stdin)
+	sc.Buffer(make([]byte, 1<<16), 1<<16)
+	for sc.Scan() {
+		f := strings.Fields(sc.Text())
+		if len(f) != 3 {
+			continue
+		}
+		exit := false
+		switch f[0] {
+		case "C35":
+			exit = c35ServeCase(f[1], f[2])
+		case "C40":
+			exit = c40ServeCase(f[1], f[2])
+		}
+		if exit {
+			// wedged goroutines are left behind: this process must not serve again
+			fmt.Fprintln(resp, "EXIT")
+			os.Exit(3)
+		}
+		fmt.Fprintln(resp, "DONE")
+	}
 }
 
-// runChild re-executes the test binary for exactly one Test function with the
-// given extra environment. dir receives the race log. wait bounds the child:
-// exceeding it is *not* a verdict (the caller reports it as inconclusive).
-func runChild(testName string, env map[string]string, dir string, wait time.Duration) (childRun, error) {
-	var out childRun
-	ctx, cancel := context.WithTimeout(context.Background(), wait)
-	defer cancel()
+// ---- the parent side ----------------------------------------------------------------------
 
-	cmd := exec.CommandContext(ctx, os.Args[0],
-		"-test.run", "^"+testName+"$", "-test.count", "1", "-test.timeout", "0", "-test.v")
-	cmd.Dir = dir
-	cmd.SysProcAttr = &syscall.SysProcAttr{Setpgid: true}
-	cmd.Cancel = func() error {
-		// Ask for a goroutine dump first; the hard kill follows after WaitDelay.
-		return syscall.Kill(-cmd.Process.Pid, syscall.SIGQUIT)
+type lockedBuf struct {
+	mu sync.Mutex
+	b  bytes.Buffer
+}
+
+func (l *lockedBuf) Write(p []byte) (int, error) {
+	l.mu.Lock()
+	defer l.mu.Unlock()
+	return l.b.Write(p)
+}
+
+func (l *lockedBuf) Len() int {
+	l.mu.Lock()
+	defer l.mu.Unlock()
+	return l.b.Len()
+}
+
+func (l *lockedBuf) From(off int) string {
+	l.mu.Lock()
+	defer l.mu.Unlock()
+	b := l.b.Bytes()
+	if off > len(b) {
+		off = len(b)
 	}
-	cmd.WaitDelay = 3 * time.Second
+	return string(b[off:])
+}
+
+type childProc struct {
+	cmd     *exec.Cmd
+	stdin   *os.File
+	resp    *bufio.Reader
+	respF   *os.File
+	stderr  *lockedBuf
+	raceLog string
+	raceOff int64
+	served  int
+}
+
+type childPool struct {
+	dir     string // where race logs go
+	cur     *childProc
+	Started int
+	Served  int
+}
+
+func newChildPool(dir string) *childPool { return &childPool{dir: dir} }
+
+func (p *childPool) start() (*childProc, error) {
+	cmd := exec.Command(os.Args[0], "-test.run", "^TestChildServe$", "-test.count", "1", "-test.timeout", "0")
+	cmd.Dir = p.dir
+	cmd.SysProcAttr = &syscall.SysProcAttr{Setpgid: true}
 
 	gorace := "halt_on_error=0 exitcode=66 history_size=3"
 	if g := os.Getenv("GORACE"); g != "" {
@@ -93,51 +158,160 @@ func runChild(testName string, env map[string]string, dir string, wait time.Dura
 		}
 		gorace = strings.Join(keep, " ")
 	}
-	raceLog := filepath.Join(dir, "race")
-	gorace += " log_path=" + raceLog
+	raceBase := filepath.Join(p.dir, fmt.Sprintf("race-%d-%d", os.Getpid(), caseCounter.Add(1)))
+	gorace += " log_path=" + raceBase
 
-	e := []string{}
+	var env []string
 	for _, kv := range os.Environ() {
 		k := kv[:strings.IndexByte(kv+"=", '=')]
 		switch k {
 		case "GORACE", "VERIF_EVIDENCE_OUT", "VERIF_REPLAY":
 			continue
 		}
-		e = append(e, kv)
+		env = append(env, kv)
 	}
-	e = append(e, "GORACE="+gorace)
-	for k, v := range env {
-		e = append(e, k+"="+v)
-	}
-	cmd.Env = e
+	env = append(env, "GORACE="+gorace, "VERIF_CONC_SERVE=1")
+	cmd.Env = env
 
-	var stderr bytes.Buffer
-	cmd.Stdout = &stderr
-	cmd.Stderr = &stderr
-	err := cmd.Run()
-	out.Stderr = stderr.String()
-	if ctx.Err() != nil {
-		out.TimedOut = true
+	inR, inW, err := os.Pipe()
+	if err != nil {
+		return nil, err
 	}
-	if cmd.ProcessState != nil {
-		out.ExitCode = cmd.ProcessState.ExitCode()
-	} else if err != nil {
-		return out, err
+	outR, outW, err := os.Pipe()
+	if err != nil {
+		return nil, err
 	}
+	cmd.Stdin = inR
+	cmd.ExtraFiles = []*os.File{outW}
+	eb := &lockedBuf{}
+	cmd.Stdout = eb
+	cmd.Stderr = eb
+	if err := cmd.Start(); err != nil {
+		return nil, err
+	}
+	inR.Close()
+	outW.Close()
+	p.Started++
+	return &childProc{cmd: cmd, stdin: inW, resp: bufio.NewReader(outR), respF: outR, stderr: eb,
+		raceLog: fmt.Sprintf("%s.%d", raceBase, cmd.Process.Pid)}, nil
+}
 
-	logs, _ := filepath.Glob(raceLog + ".*")
-	sort.Strings(logs)
-	for _, lf := range logs {
-		b, err := os.ReadFile(lf)
-		if err == nil {
-			out.Races = append(out.Races, parseRaceReports(string(b))...)
+func (c *childProc) kill(dump bool) {
+	if c == nil || c.cmd.Process == nil {
+		return
+	}
+	if dump {
+		_ = syscall.Kill(-c.cmd.Process.Pid, syscall.SIGQUIT)
+		time.Sleep(1500 * time.Millisecond)
+	}
+	_ = syscall.Kill(-c.cmd.Process.Pid, syscall.SIGKILL)
+	c.stdin.Close()
+	_ = c.cmd.Wait()
+	c.respF.Close()
+}
+
+// Close discards the current child.
+func (p *childPool) Close() {
+	if p.cur != nil {
+		c := p.cur
+		p.cur = nil
+		c.stdin.Close()
+		done := make(chan struct{})
+		go func() { _ = c.cmd.Wait(); close(done) }()
+		select {
+		case <-done:
+			c.respF.Close()
+		case <-time.After(5 * time.Second):
+			c.kill(false)
 		}
 	}
+}
+
+type childRun struct {
+	Stderr   string // the child's output during this case
+	Races    []raceReport
+	Panics   []string // "http: panic serving" blocks (net/http recovered a handler panic)
+	TimedOut bool     // no answer within the bounded wait (never a verdict)
+	Died     bool     // the child went away without answering
+}
+
+// Run executes one case in a child that has not reported a race so far. fresh
+// forces a new child. wait bounds the case: exceeding it is *not* a verdict
+// (the caller reports it as inconclusive).
+func (p *childPool) Run(kind, caseFile, outFile string, wait time.Duration, fresh bool) (childRun, error) {
+	var out childRun
+	if fresh && p.cur != nil {
+		p.Close()
+	}
+	if p.cur == nil {
+		c, err := p.start()
+		if err != nil {
+			return out, err
+		}
+		p.cur = c
+	}
+	c := p.cur
+	errOff := c.stderr.Len()
+	if _, err := fmt.Fprintf(c.stdin, "%s %s %s\n", kind, caseFile, outFile); err != nil {
+		c.kill(false)
+		p.cur = nil
+		out.Died = true
+		return out, nil
+	}
+	type ans struct {
+		line string
+		err  error
+	}
+	ch := make(chan ans, 1)
+	go func() {
+		l, err := c.resp.ReadString('\n')
+		ch <- ans{strings.TrimSpace(l), err}
+	}()
+	gone := false
+	select {
+	case a := <-ch:
+		if a.err != nil || a.line != "DONE" {
+			out.Died = a.line != "EXIT"
+			gone = true
+		}
+	case <-time.After(wait):
+		out.TimedOut = true
+		c.kill(true)
+		p.cur = nil
+	}
+	c.served++
+	p.Served++
+
+	if gone {
+		// the child is exiting on its own: let it finish writing its output
+		done := make(chan struct{})
+		go func() { _ = c.cmd.Wait(); close(done) }()
+		select {
+		case <-done:
+			c.stdin.Close()
+			c.respF.Close()
+		case <-time.After(5 * time.Second):
+			c.kill(false)
+		}
+		p.cur = nil
+	}
+	if b, err := os.ReadFile(c.raceLog); err == nil && int64(len(b)) > c.raceOff {
+		out.Races = parseRaceReports(string(b[c.raceOff:]))
+		c.raceOff = int64(len(b))
+	}
+	out.Stderr = c.stderr.From(errOff)
 	// Without log_path support (never observed) the reports would be on stderr.
 	out.Races = append(out.Races, parseRaceReports(out.Stderr)...)
 	out.Panics = parseHTTPPanics(out.Stderr)
+	if (len(out.Races) > 0 || len(out.Panics) > 0) && p.cur != nil {
+		// this detector has spoken: it would suppress equal reports from now on
+		p.cur.kill(false)
+		p.cur = nil
+	}
 	return out, nil
 }
+
+// ---- race report parsing ---------------------------------------------------------------------
 
 // parseRaceReports splits race-detector output into reports.
 func parseRaceReports(txt string) []raceReport {
@@ -153,7 +327,6 @@ func parseRaceReports(txt string) []raceReport {
 		n := 0
 		for _, sec := range sections {
 			lines := strings.Split(strings.Trim(sec, "\n"), "\n")
-			// skip the WARNING line
 			for len(lines) > 0 && (strings.HasPrefix(lines[0], "WARNING:") || strings.TrimSpace(lines[0]) == "") {
 				lines = lines[1:]
 			}
@@ -195,7 +368,6 @@ func parseRaceReports(txt string) []raceReport {
 // normFunc shortens a function name: module prefix and type arguments removed,
 // no spaces (signatures are whitespace-delimited in known.d).
 func normFunc(fn string) string {
-	// drop type arguments [ ... ] (they may nest and contain spaces)
 	var b strings.Builder
 	depth := 0
 	for _, r := range fn {
@@ -239,7 +411,7 @@ func hasFrame(st []raceFrame, suffix string) bool {
 	return false
 }
 
-// raceDetail is the human-readable form used in failure messages.
+// detail is the human-readable form used in failure messages.
 func (r raceReport) detail() string {
 	return fmt.Sprintf("%s in %s  <->  %s in %s", r.Ops[0], topRepo(r.Stacks[0]), r.Ops[1], topRepo(r.Stacks[1]))
 }
@@ -267,4 +439,33 @@ func head(s string, n int) string {
 		return s[:n] + "…"
 	}
 	return s
+}
+
+func tail(s string, n int) string {
+	if len(s) > n {
+		return "…" + s[len(s)-n:]
+	}
+	return s
+}
+
+func firstLineOf(s string) string {
+	if i := strings.IndexByte(s, '\n'); i >= 0 {
+		return s[:i]
+	}
+	return s
+}
+
+// saveInconclusive keeps the evidence of a hang / dead child for the lead; it
+// is never a verdict.
+func saveInconclusive(id, txt string) {
+	d := filepath.Join(verifLogsDir())
+	_ = os.MkdirAll(d, 0o755)
+	_ = os.WriteFile(filepath.Join(d, fmt.Sprintf("%s.inconclusive.%d.%d.txt", id, os.Getpid(), caseCounter.Add(1))), []byte(txt), 0o644)
+}
+
+func verifLogsDir() string {
+	if d := os.Getenv("VERIF_DIR"); d != "" {
+		return filepath.Join(d, "logs")
+	}
+	return "/verif/logs"
 }
